@@ -8,7 +8,10 @@ def evaluate(ck, data, rules, docg):
     n = crashed = 0
     for o in T.runs(data):
         n += 1
-        if o["status"].startswith("crash") or o["status"] == "harness-error":
+        if o["status"] == "hang" or "VsgHang" in str(o.get("exception", "")):
+            crashed += 1
+            ck.violation("hang:fix-run", "%s: the observed run did not finish within the per-run time limit (%s)" % (T.tag(o), o.get("status")), T.rep(o, oracle="hang"))
+        elif o["status"].startswith("crash") or o["status"] == "harness-error":
             crashed += 1
             exc = o.get("exception", "?")
             site = exc.split(" @ ")[-1].split(" <- ")[0] if " @ " in exc else "?"
